@@ -13,6 +13,7 @@ import (
 
 	"verif/rt/vnet"
 	"verif/rt/vrt"
+	"verif/scenarios/fx"
 	"verif/scenarios/reg"
 )
 
@@ -536,7 +537,91 @@ func flooded() {
 	vrt.Observe("how=%d got=%d", how, got)
 }
 
+// serverTerminated: the server side closes every connection (Server.Terminate) while a
+// socket client and an in-process client (Server.Client(), the pipe the server's own
+// sessions use) each have a call in flight, a subscription and a disconnect callback:
+// the calls return, the channels are closed, the callbacks fire once, later calls fail
+// (seed C11-20 stopped tracking the in-process connections, which were then never closed).
+func serverTerminated() {
+	w := fx.Start(bus.Yes{})
+	sock := w.MustConnect()
+	local := w.Srv.Client()
+	w.Root.Gate = make(chan struct{})
+	type side struct {
+		name      string
+		c         bus.Client
+		done      bool
+		err       error
+		closed    bool
+		callbacks int
+	}
+	sides := []*side{{name: "socket", c: sock.Client}, {name: "in-process", c: local}}
+	for _, sd := range sides {
+		sd := sd
+		_, ch, err := sd.c.Subscribe(w.ServiceID, 1, 105)
+		if err != nil {
+			vrt.Failf("harness/subscribe", "%s: %v", sd.name, err)
+			return
+		}
+		vrt.GoNamed("drain-"+sd.name, func() {
+			for range ch {
+			}
+			sd.closed = true
+		})
+		sd.c.OnDisconnect(func(error) { sd.callbacks++ })
+	}
+	vrt.Quiesce()
+	vrt.Explore()
+	var ws []*vrt.Thread
+	for _, sd := range sides {
+		sd := sd
+		ws = append(ws, vrt.GoWorker("caller-"+sd.name, func() {
+			_, sd.err = sd.c.Call(nil, w.ServiceID, 1, 103, fx.Int32(5))
+			sd.done = true
+		}))
+	}
+	vrt.Quiesce() // both slow() bodies are held by the gate
+	wt := vrt.GoWorker("terminator", func() { w.Srv.Terminate() })
+	vrt.Quiesce()
+	if !wt.Done() {
+		vrt.Failf("hang/terminate", "Server.Terminate blocked on %s", wt.BlockedOn())
+	}
+	for i, sd := range sides {
+		if !sd.done {
+			vrt.Failf("hang/server-terminated/"+sd.name, "the call in flight of the %s client has not returned after the server closed its connections; blocked on %s", sd.name, ws[i].BlockedOn())
+		} else if sd.err == nil {
+			vrt.Failf("call-succeeded-without-reply/"+sd.name, "the call of the %s client returned success although its method never finished", sd.name)
+		}
+		if !sd.closed {
+			vrt.Failf("subscription-open/server-terminated/"+sd.name, "the subscription channel of the %s client is still open after the server closed its connections", sd.name)
+		}
+		if sd.callbacks != 1 {
+			vrt.Failf(fmt.Sprintf("disconnect-callback-count/server-terminated/%s/%d", sd.name, sd.callbacks), "the disconnect callback of the %s client ran %d times", sd.name, sd.callbacks)
+		}
+	}
+	vrt.Freeze()
+	close(w.Root.Gate)
+	vrt.Quiesce()
+	for _, sd := range sides {
+		sd := sd
+		late := false
+		wl := vrt.GoWorker("late-"+sd.name, func() {
+			_, err := sd.c.Call(nil, w.ServiceID, 1, 100, fx.Int32(1))
+			late = err != nil
+		})
+		vrt.Quiesce()
+		if !wl.Done() {
+			vrt.Failf("hang/late-call/"+sd.name, "a call of the %s client after the loss of its connection does not return", sd.name)
+		} else if !late {
+			vrt.Failf("late-call-succeeded/"+sd.name, "a call of the %s client after the server closed its connection succeeded", sd.name)
+		}
+	}
+	vrt.Observe("socket=%v in-process=%v", sides[0].err != nil, sides[1].err != nil)
+}
+
 func init() {
+	reg.Register(&reg.Scenario{Property: "C11", Name: "server-terminated", Body: serverTerminated, Quick: 1, Thorough: 2,
+		Doc: "Server.Terminate() while a socket client and an in-process client (Server.Client()) each have a call in flight, a subscription and a disconnect callback: calls return with an error, channels closed, callbacks once, later calls fail"})
 	reg.Register(&reg.Scenario{Property: "C11", Name: "fourteen-handlers-at-loss", Body: manyAtLoss, Quick: 0, Thorough: 1,
 		Doc: "twelve pending calls, a subscription and a disconnect callback (more than the ten preallocated handler slots) when the peer closes or the client closes"})
 	reg.Register(&reg.Scenario{Property: "C11", Name: "flooded-subscription-at-loss", Body: flooded, Quick: 0, Thorough: 1,
